@@ -516,6 +516,22 @@ def definition_merge_overrides(ctx):
     merged_view(ctx, rd)
 
 
+def definition_view_is_current(ctx):
+    """The view of all definitions shows the ancestors' current tables on every read (see c16.merged_view_is_current)."""
+    from .c16 import _mixins_loops, merged_view_is_current
+
+    oc = A.function_class(ctx.repo)
+    rd = None
+    for m in oc.methods.values():
+        if _mixins_loops(m) and any(is_self_attr(x, "_defns", selfname=recv_name(m)) for x in ast.walk(m.node)) and m.name != "__init__":
+            if any(isinstance(x, ast.Return) for x in ast.walk(m.node)):
+                rd = m
+                break
+    ctx.require(rd is not None, "effective-table reader not found")
+    ctx.touch(rd)
+    merged_view_is_current(ctx, rd)
+
+
 def conversion_leaves_argument_alone(ctx):
     """Converting a plain function to a function object does not mark the plain function."""
     repo = ctx.repo
